@@ -56,6 +56,7 @@ def write_evidence(ctx, mod, verdict):
         "intensified_search": ctx.intensified,
         "notes": ctx.notes[:20],
         "process_time_zone": getattr(ctx, "process_tz", None),
+        "interpreter_optimize_flag": sys.flags.optimize,
     }
     if ctx.exhaustive is not None:
         cov["exhaustive"] = bool(ctx.exhaustive)
@@ -89,6 +90,12 @@ def stage(ctx, name, fn):
 # answers must not depend on the host's zone; code that converts naive or aware datetimes through the local zone
 # (`astimezone()` without argument, `time.mktime`, `datetime.fromtimestamp`) is invisible on a UTC host and visible here.
 PROCESS_ZONES = ["<+0545>-5:45", "XYZ4", "CET-1CEST,M3.5.0,M10.5.0/3", "<-0930>9:30", "UTC0", "JST-9"]
+
+
+# The checks run the implementation under `python -O` (./check passes -O; child interpreters inherit PYTHONOPTIMIZE):
+# a guard written as an `assert` disappears there, so it is not a guard (seeds C09-d1, C13-d1).  The harness itself uses
+# no assert statements.
+os.environ.setdefault("PYTHONOPTIMIZE", "1")
 
 
 def set_process_zone(seed, zone=None):
